@@ -252,11 +252,24 @@ public:
   }
 
   virtual bool operator<=(const powerset_domain_t &other) const override {
-    powerset_domain_t pow_left(*this);
-    powerset_domain_t pow_right(other);
-    Domain left = smash_disjuncts(pow_left);
-    Domain right = smash_disjuncts(pow_right);
-    return left <= right;
+    // The right operand cannot be smashed: the join of its disjuncts
+    // contains states that are in none of them. We answer yes only
+    // if every disjunct on the left is included in some disjunct on
+    // the right (sound but incomplete).
+    for (unsigned i = 0, sz = m_disjuncts.size(); i < sz; ++i) {
+      if (m_disjuncts[i].is_bottom()) {
+        continue;
+      }
+      bool included = false;
+      for (unsigned j = 0, sz_other = other.m_disjuncts.size();
+           j < sz_other && !included; ++j) {
+        included = (m_disjuncts[i] <= other.m_disjuncts[j]);
+      }
+      if (!included) {
+        return false;
+      }
+    }
+    return true;
   }
 
   virtual void operator|=(const powerset_domain_t &other) override {
